@@ -21,7 +21,7 @@ from .. import flow, absint, effect_engine, units, guards
 MANIFEST = {
     "level": "other",
     "technique": "static analysis over the whole package: flow-sensitive alias/effect analysis with interprocedural summaries, isinstance-guard dominance by abstract interpretation, raise/return/arity/enum path rules on the AST, literal table shape audit",
-    "text": "For every function of the package (not a sample of calls): no write can reach an argument object, a module-level table or constant; every attribute use on a parameter sits behind an isinstance guard; only the documented exception classes are raised; value-returning functions cannot fall off the end; string dispatch is exhaustive; tables have the shape their readers index. Finiteness of results and arithmetic exceptions on in-domain values are runtime facts and are not decided.",
+    "text": "For every function of the package (not a sample of calls): no write can reach an argument object, a module-level table or constant; every attribute use on a parameter sits behind an isinstance guard; only the documented exception classes are raised; value-returning functions cannot fall off the end; string dispatch is exhaustive; tables have the shape their readers index. Finiteness of results and arithmetic exceptions on in-domain values - including ValueError('math domain error') when rounding pushes a mathematically in-range argument of acos/asin/sqrt out of the domain - are runtime facts and are not decided; explicit `raise` statements are reported without a reachability analysis.",
     "note": "Trusted: Python ast; the documented-mutator table (ALLOWED_SELF_MUTATORS) and the two documented mixed-arity functions are explicit whitelists with reasons; no eval/exec/getattr-with-computed-name in the package (checked each run). Undecided: finiteness, ZeroDivision/overflow/termination on in-domain inputs, order independence beyond absence of writes.",
 }
 
